@@ -611,6 +611,13 @@ def run(cx, chk):
     check_ax(cx, chk)
     check_gen(cx, chk)
     check_gen_literals(cx, chk)
+    # "the rule, applied at offset 0": the entry state is the whole input at offset 0 and every later state is a suffix of it at the
+    # matching offset (the cursor invariant, shared with C04); the constructor is called by the entry points only (shared with C05)
+    from . import c04, c05
+    c04.check_cursor(cx, chk, cx.runtime, "runtime")
+    if "C04.cursor" in chk.rules:
+        chk.rules["C01.entry.cursor"] = chk.rules.pop("C04.cursor")
+    c05.check_state_origin(cx, chk, "C01.entry")
     try:
         from . import lift_rules
     except ImportError:
